@@ -549,7 +549,7 @@ def ev_spec(s, salt):
         r = H("isnull", to_num(ev_spec(s["t"], salt))).numerator % 2 == 0
         return (not r) if k == "notnull" else r
     if k == "func":
-        if s["special"] or s["extract_from"] or s["filters"] or s["over"] or s["distinct"] or s["schema"]:
+        if s["special"] or s["extract_from"] or s["filter"] or s["over"] or s["distinct"] or s["schema"]:
             raise Undefined("function with special clauses")
         return H("func", s["name"].upper(), tuple(to_num(ev_spec(a, salt)) for a in s["args"]))
     if k == "case":
